@@ -108,17 +108,23 @@ ONESYM = {
     'cg-restart-after-late-lower-bound': ([3, 1], [[8, -1], [-1, 1.5]], 10, [-100, None], [100, 100], 1, (-0.9, -0.5)),
     # no bound active, minimiser outside the ball: the boundary refinement makes consecutive rotations; the radius is the symbol
     'two-rotations': ([-3, -1], [[8, 1], [1, 3]], None, [-100, -100], [100, 100], 'delta', (0.2, 0.3)),
+    # the point starts ON a lower bound (or up to 0.5 inside it) with an inward gradient, so the variable is free; off-diagonal curvature
+    # drives it back onto the same bound in a later CG direction (d_i = 0 at that moment)
+    'return-to-lower-bound': ([-1, -2], [[2, 0.5], [0.5, 0.25]], 8, [None, -8], [8, 8], 0, (-0.5, 0)),
+    'return-to-upper-bound': ([1, 2], [[2, 0.5], [0.5, 0.25]], 8, [-8, -8], [None, 8], 0, (0, 0.5)),
+    # (an n = 3 member where the refinement fixes a variable and rotates again - g=(-1,-3,0), H=[[6,4,-2],[4,3,-1],[-2,-1,1]], Delta=4, one symbolic
+    #  bound - did not finish a single path in 600 s: out of reach, stated in DESIGN)
     'two-rotations-far-bound': ([-3, -1], [[8, 1], [1, 3]], 0.25, [-100, -100], [100, None], 1, (5, 6)),
 }
 
 
 def body_onesym(E, member):
     np = E.np
-    n = 2
     gc, Hc, dc, slc, suc, j, (lo, hi) = ONESYM[member]
+    n = len(gc)
     g = E.arr([E.const(str(v)) for v in gc], 'f') if E.symbolic else np.array(gc, dtype=float)
     H = E.arr([[E.const(str(v)) for v in row] for row in Hc], 'f') if E.symbolic else np.array(Hc, dtype=float)
-    xopt = E.arr([0, 0], 'f') if E.symbolic else np.zeros(2)
+    xopt = E.arr([0] * n, 'f') if E.symbolic else np.zeros(n)
     b = E.real('bound', npy=(j != 'delta'), lo=lo, hi=hi)
     delta = b if j == 'delta' else E.const(str(dc))
     sl = E.arr([E.const(str(v)) if v is not None else b for v in slc], 'f') if E.symbolic else np.array([v if v is not None else b for v in slc], dtype=float)
@@ -335,9 +341,9 @@ def harnesses(tier, seed):
                           assumptions=["semi-symbolic: concrete model data, symbolic geometry", "real arithmetic (QF_NRA)"],
                           expect=['n2:step-inside-box'], nproc=None, wall_budget=(150 if tier == 'quick' else 1500), expect_exhaustive=False,
                           max_paths=(400 if tier == 'quick' else 5000)))
-    for mname in (['cg-restart-after-late-bound', 'two-rotations-far-bound'] if tier == 'quick' else list(ONESYM.keys())):      # (the alt-* members: 5 min each and mostly 'unknown' without the portfolio - measured)
-        hs.append(Harness("trsbox[n=2,one-symbolic-bound,%s]" % mname, 'dfverif.checks.c12', 'body_onesym', params=dict(member=mname), cfg=nra(), functions=FUNCS,
-                          bounds="n=2; g, H, Delta, xopt and three bounds concrete, ONE bound symbolic in a range around the value where the boundary refinement is limited by it",
+    for mname in (['cg-restart-after-late-bound', 'two-rotations-far-bound', 'return-to-lower-bound'] if tier == 'quick' else list(ONESYM.keys())):      # (the alt-* members: 5 min each and mostly 'unknown' without the portfolio - measured)
+        hs.append(Harness("trsbox[n=%d,one-symbolic-bound,%s]" % (len(ONESYM[mname][0]), mname), 'dfverif.checks.c12', 'body_onesym', params=dict(member=mname), cfg=nra(), functions=FUNCS,
+                          bounds="n=%d; g, H, Delta, xopt and all bounds but one concrete, ONE bound symbolic in a range around the value where it limits the step" % len(ONESYM[mname][0]),
                           assumptions=["semi-symbolic with one symbol", "real arithmetic (QF_NRA); gnew compared to 1e-9 absolute"],
                           expect=['1sym:step-inside-box'], nproc=None, wall_budget=(150 if tier == 'quick' else 900), expect_exhaustive=False, max_paths=300))
     for (n, pats, steps) in _cg_grid(tier):
